@@ -177,6 +177,9 @@ def c20_prop():
           bounds="E-HIST heap from empty: 3 nodes, <= 4 operations, keys 0..2, re-insertion allowed"),
         H(HEAP, "heap_hist_k4_p4_n6", "hold", replay=("heap_hist", 4 | (4 << 4)), est_s=200,
           bounds="E-HIST heap: insert 4 nodes (symbolic keys), then <= 2 arbitrary operations"),
+        H(HEAP, "heap_wide_k7", "hold", replay=("heap_wide", 0), est_s=300, est_gb=4, timeout=900,
+          bounds="E-HIST heap, partition 'wide': a minimal root and up to 6 children with symbolic keys built by real inserts, remove the root "
+                 "(merge_children over up to 6 siblings) or a child, then drain through peek_min/remove"),
         H(HEAP, "heap_witness_k4_n6", "witness", replay=("heap_hist", 4 | (4 << 4)), witness_bit=2, est_s=200,
           bounds="witness twin: the root is removed while it has >= 3 children"),
     ]
@@ -360,15 +363,17 @@ def c15_prop():
     quick = [
         H(TIMER, "step_c15_poll", "step", est_s=200, bounds="E-STEP timer: ANY heap-ordered tree over the registered subset of 4 timer futures, deadlines and clock full u64, poll(A|B)"),
         H(TIMER, "step_c15_drop", "step", est_s=200, bounds="E-STEP timer: same pre-state, drop of any future (heap removal)"),
-        H(TIMER, "step_c15_check", "step", est_s=300, bounds="E-STEP timer: same pre-state, check_expirations() + next_expiration()"),
+        H(TIMER, "step_c15_check_k3", "step", est_s=300, est_gb=3, timeout=900, bounds="E-STEP timer: ANY heap over the registered subset of 3 futures, check_expirations() + next_expiration()"),
         H(TIMER, "delay_full_range", "hold", replay=("timer_delay", 0), mask=P(15), est_s=60,
           bounds="delay(d) = deadline(now + d) saturating: Duration (secs u64, nanos < 1e9) and clock full range"),
-        H(TIMER, "hist_c15_n5", "hold", replay=("timer_hist_noop", 0), mask=P(15), est_s=200,
-          bounds="E-HIST timer: K=3 slots (re-creatable), deadlines 0..3, clock advances 1|2, N=5 operations, 11-way alphabet"),
-        H(TIMER, "witness_order_n6", "witness", replay=("timer_hist_noop", 0), mask=PALL, witness_bit=1, est_s=250,
+        H(TIMER, "hist_c15_n4", "hold", replay=("timer_hist_noop", 0), mask=P(15), est_s=300, est_gb=3, timeout=900,
+          bounds="E-HIST timer: K=3 slots (re-creatable), deadlines 0..3, clock advances 1|2, N=4 operations, 11-way alphabet"),
+        H(TIMER, "witness_order_n4", "witness", replay=("timer_hist_noop", 0), mask=PALL, witness_bit=1, est_s=300, est_gb=4, timeout=900,
           bounds="witness twin: one check_expirations expires two timers with different deadlines"),
     ]
     thorough = quick + [
+        H(TIMER, "step_c15_check", "step", est_s=1500, est_gb=6, timeout=3300, bounds="E-STEP timer K=4, check_expirations()"),
+        H(TIMER, "hist_c15_n5", "hold", replay=("timer_hist_noop", 0), mask=P(15), est_s=1500, est_gb=4, timeout=3300, bounds="E-HIST timer N=5"),
         H(TIMER, "hist_c15_n6", "hold", replay=("timer_hist_noop", 0), mask=P(15), est_s=900, timeout=3000, bounds="E-HIST timer N=6"),
         H(TIMER, "hist_c15_n5_check", "hold", replay=("timer_hist_check", 0), mask=P(15), est_s=600, timeout=3000, bounds="E-HIST timer N=5, MutexType=CheckLock"),
         H(TIMER, "hist_c15_n7", "hold", replay=("timer_hist_noop", 0), mask=P(15), est_s=3000, timeout=3400, bonus=True, bounds="E-HIST timer N=7 (bonus)"),
@@ -471,7 +476,7 @@ def c01_prop():
         H(STATE, "step_c01", "step", est_s=40, bounds="E-STEP state-broadcast K=3, ids full u64", **full),
         H(TIMER, "step_c01_poll", "step", est_s=150, est_gb=2.5, bounds="E-STEP timer K=4: heap = exactly the live registered futures (structural validator), poll", **full),
         H(TIMER, "step_c01_drop", "step", est_s=400, est_gb=3, timeout=900, bounds="E-STEP timer K=4, drop (heap removal from ANY tree shape)", **full),
-        H(TIMER, "step_c01_check", "step", est_s=500, est_gb=3, timeout=900, bounds="E-STEP timer K=4, check_expirations", **full),
+        H(TIMER, "step_c01_check_k3", "step", est_s=500, est_gb=3, timeout=900, bounds="E-STEP timer K=3, check_expirations", **full),
     ]
     for cap in (0, 1, 2):
         for cn in ("ps", "pr", "dc", "tc"):
@@ -484,7 +489,7 @@ def c01_prop():
         H(EVENT, "hist_c01_n5_check", "hold", replay=("event_hist_check", 2), mask=P(1), est_s=200, bounds="E-HIST event N=5, CheckLock, all default checks", **full),
         H(ONESHOT, "hist_c01_n5", "hold", replay=("oneshot_hist_noop", 0), mask=P(1), est_s=200, bounds="E-HIST oneshot N=5, all default checks", **full),
         H(STATE, "hist_c01_n5", "hold", replay=("state_hist_noop", 0), mask=P(1), est_s=300, bounds="E-HIST state-broadcast N=5, all default checks", **full),
-        H(TIMER, "hist_c01_n5", "hold", replay=("timer_hist_noop", 0), mask=P(1), est_s=500, est_gb=4, timeout=900, bounds="E-HIST timer N=5, all default checks", **full),
+        H(TIMER, "hist_c01_n4", "hold", replay=("timer_hist_noop", 0), mask=P(1), est_s=500, est_gb=4, timeout=900, bounds="E-HIST timer N=4, all default checks", **full),
     ]
     thorough = quick + [
         H(MUTEX, "hist_c01_n6_check", "hold", replay=("mutex_hist_check", 2), mask=P(1), est_s=900, timeout=3000, bounds="E-HIST mutex N=6 CheckLock", **full),
@@ -530,7 +535,7 @@ def c17_prop():
         H(EVENT, "hist_c17_n5", "hold", replay=("event_hist_noop", 2), mask=P(17), est_s=80, bounds="E-HIST event N=5"),
         H(ONESHOT, "hist_c17_n5", "hold", replay=("oneshot_hist_noop", 0), mask=P(17), est_s=80, bounds="E-HIST oneshot N=5"),
         H(STATE, "hist_c17_n5", "hold", replay=("state_hist_noop", 0), mask=P(17), est_s=150, bounds="E-HIST state-broadcast N=5"),
-        H(TIMER, "hist_c17_n5", "hold", replay=("timer_hist_noop", 0), mask=P(17), est_s=250, est_gb=3, bounds="E-HIST timer N=5"),
+        H(TIMER, "hist_c17_n4", "hold", replay=("timer_hist_noop", 0), mask=P(17), est_s=250, est_gb=3, timeout=900, bounds="E-HIST timer N=4"),
         H(MPMC, "hist_c17_c1_st_p1_n5", "hold", replay=("mpmc_hist_noop", mpmc_cfg(1, "st", 1, 1)), mask=P(17), est_s=300, est_gb=4,
           bounds="E-HIST mpmc capacity 1 with a ChannelStream: items = what successive receives return, None once closed and drained, terminated from then on"),
         H(MPMC, "hist_c17_c0_st_p0_n4", "hold", replay=("mpmc_hist_noop", mpmc_cfg(0, "st", 0, 1)), mask=P(17), est_s=300, est_gb=4,
@@ -564,7 +569,7 @@ def c18_prop():
         H(ONESHOT, "hist_c18_n5", "hold", replay=("oneshot_hist_noop", 0), mask=P(18), est_s=100, bounds="E-HIST oneshot N=5", **st),
         H(ONESHOT_BC, "hist_c18_n5", "hold", replay=("oneshot_bc_hist_noop", 0), mask=P(18), est_s=100, bounds="E-HIST oneshot-broadcast N=5", **st),
         H(STATE, "hist_c18_n5", "hold", replay=("state_hist_noop", 0), mask=P(18), est_s=200, bounds="E-HIST state-broadcast N=5", **st),
-        H(TIMER, "hist_c18_n5", "hold", replay=("timer_hist_noop", 0), mask=P(18), est_s=300, est_gb=3, bounds="E-HIST timer N=5", **st),
+        H(TIMER, "hist_c18_n4", "hold", replay=("timer_hist_noop", 0), mask=P(18), est_s=300, est_gb=3, timeout=900, bounds="E-HIST timer N=4", **st),
         H(MPMC, "hist_c18_c1_sr_p5_n5", "hold", replay=("mpmc_hist_noop", mpmc_cfg(1, "sr", 5)), mask=P(18), est_s=300, est_gb=4, bounds="E-HIST mpmc capacity 1", **st),
         H(MPMC, "hist_c18_c0_cl_p3_n5", "hold", replay=("mpmc_hist_noop", mpmc_cfg(0, "cl", 3)), mask=P(18), est_s=300, est_gb=4, bounds="E-HIST mpmc capacity 0", **st),
         H(MPMC, "hist_c18_c2_tr_p0_n4", "hold", replay=("mpmc_hist_noop", mpmc_cfg(2, "tr", 0)), mask=P(18), est_s=300, est_gb=4, bounds="E-HIST mpmc capacity 2", **st),
@@ -702,7 +707,7 @@ def decode_raw(cfg, script):
     return ["cfg=%d" % cfg, "script bytes (stop flag / op / operands interleaved, see harness/inc): %s" % list(script)]
 
 
-DECODERS = {"ring_hist_array": decode_ring, "ring_hist_fixed": decode_ring, "ring_hist_growing": decode_ring,
+DECODERS = {"heap_wide": decode_raw, "ring_hist_array": decode_ring, "ring_hist_fixed": decode_ring, "ring_hist_growing": decode_ring,
             "list_hist": decode_raw, "list_buildstep": decode_raw, "heap_hist": decode_raw}
 DECODERS_OLD = {"mutex_hist_noop": decode_mutex, "mutex_hist_check": decode_mutex,
             "sem_hist_noop": decode_sem, "sem_hist_check": decode_sem}
